@@ -3,15 +3,16 @@
 package props
 
 import (
-	"math"
 	"bytes"
 	"encoding/json"
 	"fmt"
+	"math"
 	"net/netip"
 	"regexp"
 	"sort"
 	"strings"
 	"time"
+	"unicode/utf8"
 
 	"github.com/tdakkota/docker-logql/internal/logql"
 )
@@ -284,7 +285,9 @@ var (
 	bytLits = map[string]uint64{"1KB": 1000, "1KiB": 1024, "100B": 100, "2MB": 2000000, "10KB": 10000, "512B": 512, "1MiB": 1048576}
 	// ranges and prefixes whose first / last address is one of ipValues (boundary membership)
 	ipPats = []string{"10.0.0.5", "10.0.0.1-10.0.0.99", "10.0.0.0/24", "192.168.0.0/16", "::1", "2001:db8::/32", "0.0.0.0/0", "172.16.5.4", "2001:db8::1-2001:db8::ff",
-		"10.0.0.5-10.0.0.200", "10.0.0.1-10.0.0.5", "10.0.0.200-10.0.1.0", "8.8.8.8-8.8.8.8", "10.0.0.4/30", "10.0.0.5/32", "10.0.0.200/29", "2001:db8::1-2001:db8:1::ffff", "::1-::1", "2001:db8:1::ffff/128", "192.168.1.77-192.168.1.77"}
+		"10.0.0.5-10.0.0.200", "10.0.0.1-10.0.0.5", "10.0.0.200-10.0.1.0", "8.8.8.8-8.8.8.8", "10.0.0.4/30", "10.0.0.5/32", "10.0.0.200/29", "2001:db8::1-2001:db8:1::ffff", "::1-::1", "2001:db8:1::ffff/128", "192.168.1.77-192.168.1.77",
+		// interface-address spellings: host bits set, the network still starts below the written address
+		"10.0.0.77/24", "192.168.200.9/16", "2001:db8:ffff::9/32", "172.16.5.200/24", "10.0.0.201/29", "8.8.8.200/8"}
 )
 
 func cmpF(op string, a, b float64) bool {
@@ -654,8 +657,24 @@ type Tmpl struct {
 	Fails bool
 }
 
+// quoteTmpl writes a template as a query string literal: double-quoted with escapes, or (for a third of
+// the texts that allow it) as a raw back-quoted literal, in which every byte -- a carriage return of a
+// multi-line template included -- stands for itself.
+func quoteTmpl(text string) string {
+	if !strings.Contains(text, "`") && utf8.ValidString(text) && !strings.Contains(text, "\x00") {
+		h := uint32(2166136261)
+		for i := 0; i < len(text); i++ {
+			h = (h ^ uint32(text[i])) * 16777619
+		}
+		if h%3 == 0 {
+			return "`" + text + "`"
+		}
+	}
+	return quoteLogQL(text)
+}
+
 func stLabelTemplate(dst string, t Tmpl) Stage {
-	return stateless("label_format-template", "| label_format "+dst+"="+quoteLogQL(t.Text), func(e *Ent) bool {
+	return stateless("label_format-template", "| label_format "+dst+"="+quoteTmpl(t.Text), func(e *Ent) bool {
 		v, ok := t.Eval(e)
 		if !ok {
 			e.flag()
@@ -672,7 +691,7 @@ func stLabelTemplate(dst string, t Tmpl) Stage {
 func stLabelTemplates(dsts []string, ts []Tmpl) Stage {
 	var parts []string
 	for i := range dsts {
-		parts = append(parts, dsts[i]+"="+quoteLogQL(ts[i].Text))
+		parts = append(parts, dsts[i]+"="+quoteTmpl(ts[i].Text))
 	}
 	return stateless("label_format-template", "| label_format "+strings.Join(parts, ", "), func(e *Ent) bool {
 		vals := make([]string, len(ts))
@@ -698,7 +717,7 @@ func stRenameThenTemplate(pairs [][2]string, dst string, t Tmpl) Stage {
 	for _, p := range pairs {
 		parts = append(parts, p[0]+"="+p[1])
 	}
-	parts = append(parts, dst+"="+quoteLogQL(t.Text))
+	parts = append(parts, dst+"="+quoteTmpl(t.Text))
 	return stateless("label_format-mixed", "| label_format "+strings.Join(parts, ", "), func(e *Ent) bool {
 		for _, p := range pairs {
 			if v, ok := e.L[p[1]]; ok {
@@ -717,7 +736,7 @@ func stRenameThenTemplate(pairs [][2]string, dst string, t Tmpl) Stage {
 }
 
 func stLineFormat(t Tmpl) Stage {
-	return stateless("line_format", "| line_format "+quoteLogQL(t.Text), func(e *Ent) bool {
+	return stateless("line_format", "| line_format "+quoteTmpl(t.Text), func(e *Ent) bool {
 		v, ok := t.Eval(e)
 		if !ok {
 			e.flag()
